@@ -136,7 +136,34 @@ func runC05(c *Ctx) {
 			idx := render(ia.Index)
 			c.check(strings.HasPrefix(idx, "$1.IndexOf(") && strings.Contains(idx, ".address()"), "C05.verifyblock-guards", "slot index is the validator index of the recovered signer", mark.Pos(), idx, "slot index is "+idx)
 			c.requireAt("C05.verifyblock-guards", "mark", mark, wGE("index ≥ 0", 0, t(1, `^\$1\.IndexOf\(`)))
-			c.requireAt("C05.verifyblock-guards", "mark", mark, wFalse("slot not yet marked", `^make\(\[\]bool,.*\)\[\$1\.IndexOf\(`))
+			slotFresh := wFalse("slot not yet marked", `^make\(\[\]bool,.*\)\[\$1\.IndexOf\(`)
+			if _, ok := holdsAll(altGuards(mark.Block()), slotFresh); ok {
+				c.requireAt("C05.verifyblock-guards", "mark", mark, slotFresh)
+			} else {
+				// read-then-mark-then-test: the slot's previous value is read before the store, and the
+				// loop goes on (or VerifyBlock succeeds) only over the edge where that value was false
+				readBefore := false
+				for _, b := range vb.Blocks {
+					for _, in := range b.Instrs {
+						if ld, ok := in.(*ssa.UnOp); ok && ld.Op == token.MUL {
+							if ia, ok := ld.X.(*ssa.IndexAddr); ok && render(ia) == render(mark.Addr) && dominatesInstr(ld, mark) {
+								readBefore = true
+							}
+						}
+					}
+				}
+				hh := loopHeaderOf(mark.Block())
+				_, leak := pathAvoidingEdges(vb, mark, func(in ssa.Instruction) bool {
+					if hh != nil && in == hh.Instrs[0] {
+						return true
+					}
+					if r, ok := in.(*ssa.Return); ok {
+						return !definitelyNonNilErr(r.Results[len(r.Results)-1], guardsAtBlock(r.Block()))
+					}
+					return false
+				}, nil, slotFresh)
+				c.check(readBefore && !leak, "C05.verifyblock-guards", "mark ⊢ slot not yet marked", mark.Pos(), "previous value read before the mark and tested before going on", "a validator slot can be marked twice: the duplicate test does not guard the continuation of the loop")
+			}
 			c.requireAt("C05.nil-address", "VerifyBlock signer lookup", mark, wSame("verify() == nil", `\.verify\(\)$`, `^nil$`))
 			h := loopHeaderOf(mark.Block())
 			if h == nil {
